@@ -35,7 +35,7 @@ TypeDiff == UNION {UNION {{Pr(v, With(v, "type", Str(t2))), Pr(With(v, "type", S
 FullVals == {c.v : c \in Full(FALSE)}
 \* a typed value against the same value without a type
 TypeLess == UNION {{Pr(v, Without(v, "type")), Pr(Without(v, "type"), v)} : v \in BaseVals \cup {w \in FullVals : w.g # "Link"}}
-NilLikes == {NilItem, Iri(""), Iri("-"), [k |-> "nil", as |-> "Object"], [k |-> "nil", as |-> "Activity"], [k |-> "list", e |-> <<>>, nilslice |-> TRUE]}
+NilLikes == {NilItem, Iri(""), Iri("-"), [k |-> "nil", as |-> "Object"], [k |-> "nil", as |-> "Activity"], [k |-> "nil", as |-> "IRI"], [k |-> "list", e |-> <<>>, nilslice |-> TRUE]}
 NonNils == {I1, Note1, Person1, Untyped, Link1, ListOf(<<I1>>), BaseV("Activity", 5), BaseV("Collection", 5)}
 NilFam == {Pr(a, b) : a \in NilLikes, b \in NilLikes} \cup {Pr(a, b) : a \in NilLikes, b \in NonNils} \cup {Pr(b, a) : a \in NilLikes, b \in NonNils}
 \* the same laws on values with EVERY property set (a later comparison must not overwrite an earlier verdict)
@@ -43,7 +43,13 @@ FullId == UNION {{Pr(v, With(v, "id", Str(v.p.id.s \o "/other"))), Pr(With(v, "i
 FullMut == UNION {UNION {LET k == Kind(v.g, t) o == OtherVal(k, v.p[t]) IN
                          IF o = v.p[t] THEN {} ELSE {Pr(v, With(v, t, o)), Pr(With(v, t, o), v)}
                          : t \in (MutTerms(v.g) \ {"id", "type"}) \cap DOMAIN v.p} : v \in FullVals}
-AllPairs == PortPairs \cup TypeLess \cup FullId \cup FullMut \cup Refl \cup OddRefl \cup QueryPairs \cup Mut \cup IdDiff \cup TypeDiff \cup NilFam
+\* the generic type names are vocabulary types too: the same mutations on values typed Object / Actor / Activity
+GenericVals == {With(v, "type", Str(v.g)) : v \in {w \in FullVals : w.g \in {"Object", "Actor", "Activity"}}}
+GenericMut == UNION {UNION {LET k == Kind(v.g, t) o == OtherVal(k, v.p[t]) IN
+                            IF o = v.p[t] THEN {} ELSE {Pr(v, With(v, t, o)), Pr(With(v, t, o), v)}
+                            : t \in (MutTerms(v.g) \ {"id", "type"}) \cap DOMAIN v.p} : v \in GenericVals}
+             \cup {Pr(v, v) : v \in GenericVals}
+AllPairs == GenericMut \cup PortPairs \cup TypeLess \cup FullId \cup FullMut \cup Refl \cup OddRefl \cup QueryPairs \cup Mut \cup IdDiff \cup TypeDiff \cup NilFam
 GenInit == x = NilItem /\ y = NilItem /\ res = FALSE /\ phase = "gen"
 GenNext == FALSE /\ UNCHANGED vars
 ASSUME ndJsonSerialize("c09_pairs.ndjson", SetToSeq(AllPairs))
